@@ -522,4 +522,60 @@ Section Sim.
       + rewrite R7. symmetry. apply keys_dset_mem. unfold dmem. now rewrite Hp.
       + rewrite C1, C3, Hf3. auto.
   Qed.
+  (* ---- config.<dst> = config.<src> ---- *)
+  Lemma fine_copy kd ks a : copy_ok kd ks = true -> fine ks a = true -> fine kd a = true.
+  Proof. destruct kd, ks; try discriminate; intros _ H; try exact H; destruct a; cbn [fine] in *; try discriminate;
+         apply andb_true_iff in H as [H _]; rewrite H; reflexivity. Qed.
+
+  Lemma sim_copy st m dst src st' ob :
+    Rel st m -> op_ok opts (OpCopy dst src) = true ->
+    m_fs (mon_step opts defaults m (OpCopy dst src)) = false ->
+    m_step names st (OpCopy dst src) = Some (st', ob) -> step_ok st m (OpCopy dst src) st' ob.
+  Proof.
+    intros R Hok Hfs H. cbn [op_ok] in Hok.
+    destruct (dfind_ci dst opts) as [[cd kd]|] eqn:Hfd; [|discriminate].
+    destruct (dfind_ci src opts) as [[cs ks]|] eqn:Hfsrc; [|discriminate].
+    destruct (dfind_ci_In _ _ _ _ Hfd) as [Hind _]. destruct (dfind_ci_In _ _ _ _ Hfsrc) as [Hins _].
+    cbn [mon_step] in Hfs. rewrite Hfd, Hfsrc in Hfs. cbn [m_fs] in Hfs. apply orb_false_iff in Hfs as [_ Hnp].
+    assert (dget cs (s_pend (m_st m)) = None) as Hp by (apply dmem_false_dget; exact Hnp).
+    assert (is_list_kind ks = true /\ is_list_kind kd = true) as [Hlks Hlkd] by (destruct kd, ks; try discriminate Hok; auto).
+    destruct (r_sync _ _ R _ _ Hins Hp) as [Hus [Hview Hl]].
+    destruct (Hl Hlks) as [els [Hc Hfine]].
+    assert (cur_list defaults (m_st m) cs ks = map AStr els) as Hcur.
+    { unfold cur_list. rewrite Hp. unfold view_list. rewrite <- Hview. unfold view_of. rewrite Hc. cbn [rval_of_gotten].
+      now rewrite map_atom_text_AStr. }
+    (* the model side: the read, then the assignment of what it returned *)
+    destruct (getattr_opt _ _ _ _ _ R Hfsrc) as [g [Hg [_ [Hgc Hgd]]]].
+    assert (g = GConfig (CList true (map AStr els))) as ->.
+    { destruct g as [v|d]; [rewrite (Hgc v eq_refl) in Hc; now inversion Hc|rewrite (Hgd d eq_refl) in Hc; discriminate]. }
+    assert (find_real_name st dst = cd) as Hrn by (eapply find_real_name_opt; eassumption).
+    assert (find_real_name st cd = cd) as Hrn2 by (eapply find_real_name_canon; eassumption).
+    cbn [m_step] in H. rewrite Hg in H. unfold m_setattr in H.
+    rewrite Hrn, (opts_not_hs _ _ Hind), (r_ptys _ _ R _ _ Hind), Hrn2 in H.
+    assert (exists pk vk il, ty_of kd = (pk, vk, il) /\ validate vk (PList (map AStr els)) = Ok (PList (map AStr els))) as [pk [vk [il [Ety Hval]]]]
+      by (destruct kd; try discriminate Hlkd; eexists _, _, _; split; reflexivity).
+    rewrite Ety, Hval in H. cbn [bind cval_of_pyval] in H. inversion H. subst st' ob. clear H.
+    unfold step_ok. cbn [spec_check mon_step o_wrote o_res is_nil andb]. unfold spec_next. rewrite Hfd, Hfsrc, Hcur.
+    split; [reflexivity|].
+    destruct R as [R1 R2 R3 R4 R5 R6 R7 R9 R8 R10].
+    constructor; cbn [m_st m_det m_f1 m_f3 m_fs s_store s_pend with_unsaved m_parsers m_config m_defaults m_unsaved m_listp];
+      try assumption.
+    - intros cn' k' Hin' Hp'. destruct (list_eq_dec ascii_dec cd cn') as [E|E].
+      + subst cn'. rewrite dget_dset_same in Hp'. discriminate.
+      + rewrite dget_dset_other in Hp' by assumption. destruct (R5 _ _ Hin' Hp') as [Hu Hs].
+        rewrite dget_dset_other by assumption. split; [assumption|].
+        eapply synced_frame; [| |exact Hs]; reflexivity.
+    - intros cn' iv' Hp'. destruct (list_eq_dec ascii_dec cd cn') as [E|E].
+      + subst cn'. rewrite dget_dset_same in Hp'. inversion Hp'. subst iv'. exists kd. split; [assumption|].
+        cbn [pend_rel with_unsaved m_unsaved m_config]. split; [assumption|]. split.
+        * apply forallb_forall. intros a Ha. eapply fine_copy; [exact Hok|]. exact (proj1 (forallb_forall _ _) Hfine a Ha).
+        * right. rewrite dget_dset_same. split; [reflexivity|apply mem_bytes_cons_same].
+      + rewrite dget_dset_other in Hp' by assumption. destruct (R6 _ _ Hp') as [k' [Hin' Hpr]].
+        exists k'. split; [assumption|]. eapply pend_rel_frame; [exact E| | | |exact Hpr]; cbn [with_unsaved m_unsaved m_config].
+        * now apply dget_dset_other.
+        * reflexivity.
+        * now apply mem_bytes_cons_other.
+    - now apply keys_dset_both.
+    - now apply NoDup_keys_dset.
+  Qed.
 End Sim.
